@@ -1004,6 +1004,9 @@ def check_c19(tier, seed, log=print):
     # well choose and the generated code may use itself
     HYG = [F.HDR + '\npub enum T {\n    #[regex("[a-z]+", %s)] A,\n    #[token("=")] Eq,\n}\nfn %s<\'s>(_lex: &mut logos::Lexer<\'s, T>) {}' % (nm, nm)
            for nm in ('state0', 'state1', 'lex', 'offset', 'context', 'cb_result', 'token', 'action', 'callback')]
+    # ... and inline callbacks that *call* a function of such a name (the body is pasted where `offset` and `context` are locals)
+    HYG += [F.HDR + '\npub enum T {\n    #[regex("[a-z]+", |lex| %s(lex.slice()))] A(usize),\n    #[token("=")] Eq,\n}\nfn %s(s: &str) -> usize { s.len() }' % (nm, nm)
+            for nm in ('offset', 'context', 'measure')]
     # inline callbacks whose body leaves early: `return` and `?` are part of what a closure may contain (the body is pasted into a
     # function of the generated code, so they have to leave the closure, not that function); the last two are controls
     NHYG = len(HYG)
